@@ -330,7 +330,7 @@ def gen_case(rng, thorough=False):
     first = True
     for si in range(nsessions):
         if first:
-            mode = rng.choice([2, 2, 0])
+            mode = rng.choice([2, 2, 0, 1])
         else:
             mode = rng.choice([0, 0, 0, 1, 1, 2])
         if rng.random() < 0.5:
@@ -342,17 +342,20 @@ def gen_case(rng, thorough=False):
         elif rng.random() < 0.3:
             ops.append(["meta", "", rand_meta(rng, False)])
         if mode == 1 and total > 0:
-            # replace whole features by new data of the same length
-            new = make_features(np, rng, total, kinds, special, extra,
-                                list(feats))
-            sel = [f for f in new if f in feats and rng.random() < 0.6]
-            sub = {f: new[f] for f in sel}
-            ops += feature_ops(np, rng, sub, 0, total)
-            if rng.random() < 0.5:
-                ops.append(["log", rng.randrange(len(LOGS)), rand_lines(rng)])
+            # replace whole features by new data of the same length; the same
+            # writer instance may replace a feature several times (the
+            # contour group is then deleted and re-created under the same
+            # HDF5 path while the instance still holds its size cache)
+            for rep in range(rng.choice([1, 1, 2, 2, 3])):
+                new = make_features(np, rng, total, kinds, special, extra,
+                                    list(feats))
+                sel = [f for f in new if f in feats and rng.random() < 0.7]
+                sub = {f: new[f] for f in sel}
+                ops += feature_ops(np, rng, sub, 0, total)
+                if rng.random() < 0.5:
+                    ops.append(["log", rng.randrange(len(LOGS)),
+                                rand_lines(rng)])
         else:
-            if mode == 1:
-                pass
             n = rng.choice([1, 2, 9, 10, 11, 12, 20, 21, 23, 30, 31, 41]
                            if not thorough else
                            [1, 2, 9, 10, 11, 20, 21, 30, 45, 64, 99, 100, 101])
@@ -381,13 +384,15 @@ def gen_case(rng, thorough=False):
                 for _ in range(rng.choice([0, 0, 1, 2])):
                     fops.insert(rng.randint(0, len(fops)), rand_side_op(
                         rng, overlong and (pi > 0 or si > 0)))
-                if rng.random() < 0.04:
+                if rng.random() < 0.04 and mode != 1:
                     fops.insert(rng.randint(0, len(fops)),
                                 ["scalar", FID[rng.choice(
                                     ["deform", "index", "area_um"])], 0, []])
                 ops += fops
                 start += b
-            total += n
+            # a replace-mode session on a new file: every round replaces the
+            # previous one (create, then delete + re-create in one instance)
+            total = parts[-1] if mode == 1 else total + n
         ops.append(["close"])
         first = False
     return dict(ops=ops)
